@@ -9,8 +9,10 @@ REGISTRY.inlinable.update({(MD, "MazeDataset.__len__"), (MD, "MazeDataset.__geti
 
 # a maze is identified by an opaque identity `uid` ("the very maze at position i")
 MAZE = T.RecT("SolvedMaze", uid=T.Int)
-DATASET = T.RecT("MazeDataset", mazes=T.ListT(MAZE))
-COLLECTION = T.RecT("MazeDatasetCollection", maze_datasets=T.ListT(DATASET))
+# every member carries its own configuration with its own (possibly stale) declared maze count: nothing may be read from it in place of the real length
+MCFG = T.RecT("MazeDatasetConfig", n_mazes=T.Int)
+DATASET = T.RecT("MazeDataset", cfg=MCFG, mazes=T.ListT(MAZE))
+COLLECTION = T.RecT("MazeDatasetCollection", cfg=T.RecT("MazeDatasetCollectionConfig", maze_dataset_configs=T.ListT(MCFG)), maze_datasets=T.ListT(DATASET))
 
 _LENS = "[len(d.mazes) for d in self.maze_datasets]"
 
@@ -76,9 +78,7 @@ class coll_mazes:
 
 
 # ------------------------------------------------------------------------------------------- update_self_config
-MCFG = T.RecT("MazeDatasetConfig", n_mazes=T.Int)
-DATASET_C = T.RecT("MazeDataset", cfg=MCFG, mazes=T.ListT(MAZE))
-COLLECTION_C = T.RecT("MazeDatasetCollection", cfg=T.RecT("MazeDatasetCollectionConfig", maze_dataset_configs=T.ListT(MCFG)), maze_datasets=T.ListT(DATASET_C))
+DATASET_C, COLLECTION_C = DATASET, COLLECTION
 _ND = "len(self.maze_datasets)"
 _KEPT = ("len(self.maze_datasets) == len(entry(self).maze_datasets) and len(self.cfg.maze_dataset_configs) == len(entry(self).cfg.maze_dataset_configs)"
          " and forall(lambda j: len(self.maze_datasets[j].mazes) == len(entry(self).maze_datasets[j].mazes)"
